@@ -115,12 +115,13 @@ class JacobianWrapper(object):
 
     def richardson(self, y, *args, dy=0.5, factor=4.0, **kwargs):
         A = [[self.estimate(y, dy=dy * (factor ** -m), *args, **kwargs)] for m in range(self.richardson_iter)]
-        denom = factor ** self.base_order
+        # the central stencil on base_order nodes has the error expansion h^p, h^(p+2), ... with p = base_order rounded down to an even number
+        lead = self.base_order - self.base_order % 2
         with warnings.catch_warnings():
             warnings.filterwarnings('ignore', message='overflow encountered', category=RuntimeWarning)
             for m in range(1, self.richardson_iter):
                 for n in range(1, m):
-                    A[m].append(A[m][n - 1] + (A[m][n - 1] - A[m - 1][n - 1]) / (denom ** n - 1))
+                    A[m].append(A[m][n - 1] + (A[m][n - 1] - A[m - 1][n - 1]) / (factor ** (lead + 2 * (n - 1)) - 1))
         return A[-1][-1]
 
     def adaptive_richardson(self, y, *args, dy=0.5, factor=4, **kwargs):
@@ -128,14 +129,15 @@ class JacobianWrapper(object):
         if self.richardson_iter == 1:
             return A[0][0]
         factor = 1.0 * factor
-        denom = factor ** self.base_order
+        # the central stencil on base_order nodes has the error expansion h^p, h^(p+2), ... with p = base_order rounded down to an even number
+        lead = self.base_order - self.base_order % 2
         prev_error = numpy.inf
         with warnings.catch_warnings():
             warnings.filterwarnings('ignore', message='overflow encountered', category=RuntimeWarning)
             for m in range(1, self.richardson_iter):
                 A.append([self.estimate(y, *args, dy=dy * (factor ** (-m)), **kwargs)])
                 for n in range(1, m + 1):
-                    A[m].append(A[m][n - 1] + (A[m][n - 1] - A[m - 1][n - 1]) / (denom ** n - 1))
+                    A[m].append(A[m][n - 1] + (A[m][n - 1] - A[m - 1][n - 1]) / (factor ** (lead + 2 * (n - 1)) - 1))
                 if m >= 3:
                     prev_error, t_conv = self.check_converged(A[m][m], A[m][m] - A[m - 1][m - 1], prev_error)
                     if t_conv:
